@@ -92,7 +92,7 @@ def _check_case(case):
         out.classes.append('hostile-echo')
     if meta.get('ta1'):
         out.classes.append('ta1-requested')
-    for k_ in ('flood', 'empty-gs06'):
+    for k_ in ('flood', 'empty-gs06', 'delimiter-in-offending-value'):
         if meta.get(k_):
             out.classes.append(k_)
     out.key = text
@@ -253,6 +253,22 @@ def run_entry(entry, n, seed, acc, tier):
             meta['parts'] = [e['file'] for e in doc.parts]
         if mode == 'plain' and ch.chance(.5) and flood(doc):
             meta['flood'] = True
+        if mode in ('plain', 'many-groups', 'ta1') and ch.chance(.4):
+            # offending values that hold a delimiter of the acknowledgement although the input uses the same delimiters:
+            # a simple element sent with components (echoed with the ':' in it), and under 00501 a code holding '^'
+            n_ = 0
+            sites = [x for x in faults.candidates(doc, 'too-long') if x[2] is None and doc.segs[x[0]].node.children[x[1]].dtype == 'AN']
+            if sites and ch.chance(.7):
+                i_, ei_, _c = sites[ch.integer(0, len(sites) - 1)]
+                doc.segs[i_].vals[ei_] = ['777', 'ELM ST']
+                n_ += 1
+            sites = faults.candidates(doc, 'not-in-code-list')
+            if sites and doc.icvn == '00501' and ch.chance(.7):
+                i_, ei_, ci_ = sites[ch.integer(0, len(sites) - 1)]
+                doc.segs[i_].vals[ei_][ci_ or 0] = 'M^X'
+                n_ += 1
+            if n_:
+                meta['delimiter-in-offending-value'] = True
         if mode in ('plain', 'many-groups') and ch.chance(.12):
             # the last group has no control number of its own to lend to the acknowledgement
             gs = [x for x in doc.segs if x.id == 'GS']
